@@ -254,6 +254,12 @@ func s3(p *core.Program, a *spec.Anchors, r *core.Report, writes, reads bool) {
 							continue
 						}
 						if walk[fn] && (fr.Index == a.GDirty || fr.Index == a.GGradient) {
+							if c, isC := x.Val.(*ssa.Const); isC && c.IsNil() && fr.Index == a.GGradient {
+								r.Violate("S3.gctx-write", key, fr.Name+":dropped", p.Pos(x.Pos()),
+									"the back-propagation walk sets GradContext.gradient to nil: a tracked tensor of the graph ends without the gradient the walk delivered to it (only ResetGradContext, by replacing the context, discards gradients)",
+									"b := x.Broadcast(shape); BackPropagate(b.Sum…): b.Gradient() is nil although b is a tracked tensor of the graph")
+								continue
+							}
 							r.Pass("S3.gctx-write", key, fr.Name, p.Pos(x.Pos()), "the back-propagation walk marks / accumulates")
 							continue
 						}
